@@ -731,9 +731,9 @@ def plan(tier, seed):
     for p in range(16 if thorough else 8):
         shards.append({'name': 'fn-%d' % p, 'kind': 'functions', 'per_fn': 160 if thorough else 12, 'timeout': 3000})
     for p in range(8 if thorough else 2):
-        shards.append({'name': 'dict-%d' % p, 'kind': 'dicts', 'count': 2500 if thorough else 150})
+        shards.append({'name': 'dict-%d' % p, 'kind': 'dicts', 'count': 2500 if thorough else 150, 'timeout': 3000})
     for p in range(8 if thorough else 2):
-        shards.append({'name': 'laws-%d' % p, 'kind': 'laws', 'count': 3000 if thorough else 200})
+        shards.append({'name': 'laws-%d' % p, 'kind': 'laws', 'count': 3000 if thorough else 200, 'timeout': 3000})
     for p in range(16 if thorough else 4):
         shards.append({'name': 'pipe-%d' % p, 'kind': 'pipelines', 'count': 10000 if thorough else 500, 'timeout': 3000})
     return shards
